@@ -76,6 +76,32 @@ func init() {
 				}
 			}
 		}
+		// decision tasks (a task whose own conditional out-flows read the result its answer
+		// writes): every task leaf of the small programs replaced in turn
+		decLim := 2
+		if thorough {
+			decLim = 3
+		}
+		seenDec := map[string]bool{}
+		for _, b := range progs {
+			if b.Size() > decLim || strings.Contains(b.String(), "side") {
+				continue
+			}
+			for _, v := range drv.DecVariants(b) {
+				if !seenDec[v.String()] {
+					seenDec[v.String()] = true
+					progs = append(progs, v)
+				}
+			}
+		}
+		if !thorough {
+			for _, v := range []*drv.Block{drv.Seq(drv.Dec(), drv.T()), drv.Seq(drv.T(), drv.Dec()), drv.Par(drv.Dec(), drv.T()), drv.Incl(1, drv.Dec(), drv.T()), drv.Seq(drv.Dec(), drv.Dec())} {
+				if !seenDec[v.String()] {
+					seenDec[v.String()] = true
+					progs = append(progs, v)
+				}
+			}
+		}
 		for i, b := range progs {
 			sc := Scenario("C01", i, b, 0)
 			sc.Weight = b.Size()
@@ -87,6 +113,9 @@ func init() {
 			lim = 3
 		}
 		for i, b := range progs {
+			if !thorough && strings.Contains(b.String(), "dec") && b.Size() > 1 {
+				continue
+			}
 			if b.Size() <= lim {
 				sc := Scenario("C01", i, b, 1)
 				sc.Weight = 1000 * b.Size()
